@@ -11,7 +11,7 @@ other exception types are counted as 'other-refusal' evidence.  A signal.alarm w
 case only ever yields 'inconclusive for that case'.
 """
 
-import itertools, json, traceback, warnings
+import hashlib, itertools, json, traceback, warnings
 import numpy
 from vlib.runner import Result, rng_for
 from vlib import c14_mon as mon
@@ -37,11 +37,14 @@ ASSUMPTIONS = ['dense numpy arithmetic (matrix export("dense") @ x, checked sepa
                'MKL backend not installable offline: not covered', 'wall-clock watchdog firings are inconclusive for that case, never violations']
 BUDGET_S = {'quick': 75, 'thorough': 1320}
 GRACE_S = 60
-NCASES = {'quick': dict(L=4000, S=420, N=330, T=90, P=56, R=1), 'thorough': dict(L=80000, S=8000, N=6000, T=1600, P=800, R=1)}
-CHUNK = dict(L=80, S=20, N=10, T=6, P=4, R=1)
-CASE_WALL_S = {'quick': 20, 'thorough': 40}
+NCASES = {'quick': dict(L=8000, S=800, N=700, T=200, P=100, R=1), 'thorough': dict(L=200000, S=25000, N=25000, T=6000, P=2500, R=1)}
+CHUNK = dict(L=100, S=20, N=20, T=10, P=5, R=1)
+CASE_CPU_S = {'quick': 6, 'thorough': 15}   # per-case CPU-time watchdog; the wall-clock alarm behind it is 10x this
 NAN_FINDING = 'C14-nan-residual-returns-guess'
 MULTIRHS_FINDING = 'C14-arnoldi-multirhs-zero-column'
+MULTIRHS_CONS_FINDING = mon.MULTIRHS_CONS_FINDING
+STEP_FINDING = mon.STEP_FINDING
+COMPLEX_ARNOLDI_FINDING = 'C14-arnoldi-complex-orthogonalisation'
 
 
 def plan(tier, seed):
@@ -51,6 +54,10 @@ def plan(tier, seed):
         units += [dict(family=fam, start=i, stop=min(n, i + c)) for i in range(0, n, c)]
     order = rng_for(seed, 'c14-plan').permutation(len(units))
     return [units[i] for i in order]
+
+
+def dhash(desc):
+    return hashlib.sha1(json.dumps(desc, default=str).encode()).hexdigest()[:14]
 
 
 _BACKENDS = None
@@ -132,7 +139,7 @@ def gen_linear(rng):
     lhs0 = None if l0kind == 'none' else vec(1. if l0kind == 'random' else 50.)
     cvals = vec()
     # right-hand side
-    rkind = str(rng.choice(['random', 'zero', 'tiny', 'none', 'multi', 'consistent'], p=[.45, .08, .12, .05, .15, .15]))
+    rkind = str(rng.choice(['random', 'zero', 'tiny', 'none', 'multi', 'consistent', 'nonfinite'], p=[.42, .08, .12, .05, .15, .15, .03]))
     atol, rtol = float(rng.choice(ATOLS, p=[.45, .25, .3])), float(rng.choice(ATOLS, p=[.55, .2, .25]))
     x0 = numpy.zeros(n, dtype=A.dtype) if lhs0 is None else lhs0.astype(A.dtype)
     if ckind == 'float':
@@ -147,6 +154,9 @@ def gen_linear(rng):
         rhs = A @ x0 + d
     elif rkind == 'consistent':
         rhs = A @ vec()
+    elif rkind == 'nonfinite':   # garbage in: only finiteness of a returned vector is demanded
+        rhs = vec()
+        rhs[int(rng.integers(n))] = float(rng.choice([numpy.inf, -numpy.inf, numpy.nan, 1e200]))
     elif rkind == 'multi':
         k = int(rng.integers(2, 4))
         rhs = numpy.stack([vec() for _ in range(k)], axis=1)
@@ -210,10 +220,12 @@ def run_linear(rng, case, res):
     with matrix.backend(g['backend']):
         M = gen.assemble(g['A'])
         kwa = linear_call_args(g, g['lhs0'])
+        nwarn = S.log.nwarn
         ok, xa = attempt(lambda: getattr(M, g['api'])(g['rhs'], **kwa))
+        lenient_warned = g['api'] == 'solve_leniently' and S.log.nwarn > nwarn
         nfree = int((~g['cmask']).sum()) if g['ckind'] != 'none' else g['n']
         if nfree and S.res.counters.get('Matrix.solve/calls', 0) > before:
-            res.add('distinct', json.dumps(desc))
+            res.add('distinct', dhash(desc))
         # second solve from another start vector: for a linear problem the answer may not depend on it
         if g['ckind'] == 'row' and (g['rmask'] is None or g['rmask'].sum() != g['cmask'].sum()):
             return
@@ -228,25 +240,27 @@ def run_linear(rng, case, res):
         if not (ok and okb):
             res.count('L/independence/one-refused')
             return
-        check_independence(g, xa, xb, kwa, kwb, res)
+        if lenient_warned:   # the lenient answer was announced as not meeting the tolerance: nothing to compare
+            res.count('L/independence/lenient-warned-skipped')
+            return
+        check_independence(g, xa, xb, kwa, kwb, res, M)
 
 
-def multirhs_mechanism(g, x0a, x0b):
-    """structural predicate of the known arnoldi multi-column defect: rhs has several columns, solver arnoldi, and for one of the start
-    vectors some column of the reduced rhs is exactly zero while another is not"""
-    if g['solver'] != 'arnoldi' or g['rhs'] is None or g['rhs'].ndim != 2:
+def multirhs_mechanism(g, M, kwa, kwb, bound):
+    """behavioural predicate of the known arnoldi multi-column defect (the Krylov loop stops for ALL columns as soon as ONE column has a
+    zero search vector): solver arnoldi, several rhs columns, and solving the columns one at a time IS independent of the start vector"""
+    if g['solver'] != 'arnoldi' or g['rhs'] is None or g['rhs'].ndim != 2 or M is None:
         return False
-    A, J = g['A'], (~g['cmask'] if g['ckind'] != 'none' else numpy.ones(g['n'], bool))
-    for x0 in (x0a, x0b):
-        X0 = numpy.repeat(x0[:, None], g['rhs'].shape[1], axis=1) if x0.ndim == 1 else x0
-        red = (g['rhs'] - A @ X0)[J]
-        z = (red == 0).all(axis=0)
-        if z.any() and not z.all():
-            return True
-    return False
+    for j in range(g['rhs'].shape[1]):
+        col = numpy.ascontiguousarray(g['rhs'][:, j])
+        oka, xa = attempt(lambda: M.solve(col, **kwa))
+        okb, xb = attempt(lambda: M.solve(col, **kwb))
+        if not (oka and okb) or not mon.colnorm(xa - xb) <= bound:
+            return False
+    return True
 
 
-def check_independence(g, xa, xb, kwa, kwb, res):
+def check_independence(g, xa, xb, kwa, kwb, res, M=None):
     A = g['A']
     n = g['n']
     J = ~g['cmask'] if g['ckind'] != 'none' else numpy.ones(n, dtype=bool)
@@ -270,6 +284,9 @@ def check_independence(g, xa, xb, kwa, kwb, res):
         return x0
     x0a, x0b = start(kwa), start(kwb)
     rhs = numpy.zeros(n, dtype=A.dtype) if g['rhs'] is None else g['rhs']
+    if not numpy.isfinite(mon.colnorm(rhs)):
+        res.count('L/independence/nonfinite-input-skipped')
+        return
     def tolof(x0):
         X0 = x0 if rhs.ndim == 1 else numpy.repeat(x0[:, None], rhs.shape[1], axis=1)
         return max(g['atol'], g['rtol'] * mon.colnorm((rhs - A @ X0)[I]))
@@ -293,7 +310,10 @@ def check_independence(g, xa, xb, kwa, kwb, res):
         if d <= 10 * bound:
             res.count('L/independence/marginal')
             return
-        mech = MULTIRHS_FINDING if multirhs_mechanism(g, x0a, x0b) else None
+        mech = MULTIRHS_FINDING if multirhs_mechanism(g, M, kwa, kwb, bound) else None
+        if mech is None and g['cplx'] and g['solver'] == 'arnoldi' and g['precon'] in ('diag', 'spilu', 'spilu0'):
+            # known mechanism: complex matrix + arnoldi with an inexact preconditioner (more than one Krylov vector: conjugation slip in the orthogonalisation)
+            mech = COMPLEX_ARNOLDI_FINDING
         S.violate('independence', f'two start vectors give solutions differing by {d:.3e} > bound {bound:.3e} (cond {cond:.2e}, tolerances {tola:.1e}/{tolb:.1e}, '
                   f'solver {g["solver"]}/{g["precon"]}, truncate {g["truncate"]}); xa={numpy.asarray(xa).tolist()} xb={numpy.asarray(xb).tolist()}', mech)
 
@@ -376,7 +396,7 @@ def run_linsys(rng, case, res):
         S.oracle['linear'] = (A, bb)
         free, cond, smin = free_cond(model, cons, y)
         if free.any():
-            res.add('distinct', json.dumps(desc))
+            res.add('distinct', dhash(desc))
         linargs = pick_linargs(rng, b)
 
         def call(guess, method_cache={}):
@@ -616,7 +636,7 @@ def run_nonlinear(rng, case, res):
             else:
                 refusal(api, out1)
         case.update(desc=desc, guess={k: v.tolist() for k, v in guess.items()})
-        res.add('distinct', json.dumps(desc, default=str))
+        res.add('distinct', dhash(desc))
         res.count('N/outcome/' + ('returned' if ok1 else type(out1).__name__))
         if ok1 and model.root is not None:
             res.count('N/returned-with-known-root')
@@ -666,7 +686,7 @@ def run_time(rng, case, res):
             def F(a):
                 dt = a['dt'] if use_dt else (a['t'] - a['t0'])
                 return [m * (a['u'] - a['u0']) / dt + R(a['u'], a['t'] if with_time else 0.)]
-            model = gen.Model('step', ['u'], shapes, F=F, extra=extra, coef=tm['coef'] + 2 / min(timestep / 4, 1.), deg=3)
+            model = gen.Model('step', ['u'], shapes, F=F, extra=extra, coef=tm['coef'] + 2 / min(timestep / 16, 1.), deg=3)
             ok, system = attempt(model.system)
             if not ok:
                 res.count('T/system-construction-failed')
@@ -680,7 +700,7 @@ def run_time(rng, case, res):
             nsteps = int(rng.integers(1, 4))
             desc = ['T', b, api, n, with_time, use_dt, tm['hard'], tm['linear'], mname, maxiter, maxretry, timestep, tol, ckinds, nsteps]
             case.update(desc=desc)
-            res.add('distinct', json.dumps(desc))
+            res.add('distinct', dhash(desc))
             args = {'u': u_init}
             if with_time:
                 args['t'] = numpy.array(float(rng.choice([0., 1.5])))
@@ -707,14 +727,14 @@ def run_time(rng, case, res):
                 t1, t0 = a_[timetarget], a_[timetarget + '0']
                 tt = (lambda t: t) if with_time else (lambda t: 0.)
                 return [theta * R(a_['u'], tt(t1)) + (1 - theta) * R(a_['u0'], tt(t0)) + (m * a_['u'] - m * a_['u0']) / (t1 - t0)]
-            model = gen.Model('theta', ['u'], shapes, F=F, extra=extra, coef=tm['coef'] + 2 / min(timestep / 4, 1.), deg=3)
+            model = gen.Model('theta', ['u'], shapes, F=F, extra=extra, coef=tm['coef'] + 2 / min(timestep / 16, 1.), deg=3)
             S.oracle = model.oracle()
             nsteps = int(rng.integers(3, 6))
             ls = str(rng.choice(['norm', 'none', 'median']))
             newtonargs = {} if ls == 'norm' else {'linesearch': None} if ls == 'none' else {'linesearch': solver.MedianBased()}
             desc = ['T', b, api, n, with_time, theta, timetarget, tm['hard'], tm['linear'], ls, timestep, tol, ckinds, nsteps]
             case.update(desc=desc)
-            res.add('distinct', json.dumps(desc))
+            res.add('distinct', dhash(desc))
             c = cons.get('u')
 
             def f():
@@ -757,11 +777,10 @@ def run_project(rng, case, res):
         x = geom[0] if dim == 1 else geom[0] + 2 * geom[1]
         fun = {'zero': 0., 'const': 1.5, 'poly': 1 + x ** 2}[fkind]
         gd = 2 * degree
-        # independent dense recomputation of the projection matrix and rhs from point values and weights
-        smp = topo.sample('gauss', gd)
-        B, w, fv = smp.eval([basis, function.J(geom), function.asarray(fun) * numpy.ones(())])
-        Ad = numpy.einsum('p,pi,pj->ij', w, B, B)
-        bd = numpy.einsum('p,pi,p->i', w, B, numpy.broadcast_to(fv, w.shape))
+        # dense recomputation of the projection matrix and rhs: plain dense integrals (not the CSR path that project itself uses)
+        J = function.J(geom)
+        Ad, bd = topo.integrate([numpy.einsum('i,j', basis, basis) * J, basis * fun * J], degree=gd)
+        Ad, bd = numpy.asarray(Ad, dtype=float), numpy.asarray(bd, dtype=float)
         rowmax = numpy.abs(Ad).max(axis=1)
         vals = numpy.unique(rowmax)
         r = rng.random()
@@ -784,7 +803,7 @@ def run_project(rng, case, res):
             la = dict(atol=1e-10) if rng.random() < .5 else dict(solver='direct', rtol=1e-10)
         desc = ['P', b, dim, shape, btype, degree, where, fkind, droptol, None if prior is None else numpy.isnan(numpy.asarray(prior)).astype(int).tolist(), sorted(la)]
         case.update(desc=desc)
-        res.add('distinct', json.dumps(desc))
+        res.add('distinct', dhash(desc))
         ok, out = attempt(lambda: topo.project(fun, onto=basis, geometry=geom, degree=gd, droptol=droptol, constrain=prior, **la))
         S.count('Topology.project/calls')
         if not ok:
@@ -818,7 +837,12 @@ def run_project(rng, case, res):
         bred = float(numpy.linalg.norm((Ad @ u0 - bd)[rows])) if rows.any() else 0.
         tol = max(la.get('atol', 0.), la.get('rtol', 0.) * bred)
         mag = ndofs * mon.amax(Ad) * (mon.amax(u) + mon.amax(u0)) + mon.amax(bd)
-        if tol > 0:
+        if not bd.any():
+            # project documents no solve for a zero function: retained entries are set to 0 whatever the earlier constraints are
+            S.count('Topology.project/zero-function-shortcut')
+            if numpy.any(got[rows] != 0):
+                S.violate('Topology.project:zero', f'projection of the zero function returned {got.tolist()}')
+        elif tol > 0:
             v = mon.band(rr, tol, mag)   # same quadrature points and weights as project uses
             S.count('Topology.project/residual-' + v)
             if v == 'violation':
@@ -846,7 +870,7 @@ def nan_residual_variants():
 
 def run_regression(rng, case, res):
     case.update(desc=['R', 'nan-residual'])
-    res.add('distinct', json.dumps(case['desc']))
+    res.add('distinct', dhash(case['desc']))
     returned = []
     for label, thunk in nan_residual_variants():
         res.count('R/nan-variants')
@@ -858,10 +882,13 @@ def run_regression(rng, case, res):
         if not any(m == NAN_FINDING for _, _, m in S.pending):
             S.violate('nan-residual', '; '.join(returned), NAN_FINDING)
     # the multi-column arnoldi mechanism (kept as an explicit case so that its status is visible on every run)
-    fails, what = repro_multirhs()
-    res.count('R/multirhs-runs')
-    if fails:
-        S.violate('independence', what, MULTIRHS_FINDING)
+    S.oracle = None
+    for fid, monitor, fn in [(MULTIRHS_FINDING, 'independence', repro_multirhs), (MULTIRHS_CONS_FINDING, 'Matrix.solve:constraint', repro_multirhs_cons),
+                             (STEP_FINDING, 'System.step:time', repro_step_time), (COMPLEX_ARNOLDI_FINDING, 'independence', repro_complex_arnoldi)]:
+        fails, what = fn()
+        res.count('R/deterministic-mechanism-runs')
+        if fails:
+            S.violate(monitor, what, fid)
 
 
 FAMILIES = dict(L=run_linear, S=run_linsys, N=run_nonlinear, T=run_time, P=run_project, R=run_regression)
@@ -875,7 +902,7 @@ def run_case(seed, tier, family, index, res):
     S.begin()
     res.count('evaluations')
     res.count('cases/' + family)
-    mon.arm(CASE_WALL_S.get(tier, 20))
+    mon.arm(CASE_CPU_S.get(tier, 15))
     try:
         FAMILIES[family](rng, case, res)
     except mon.WallWatchdog:
@@ -885,7 +912,7 @@ def run_case(seed, tier, family, index, res):
         S.pending = []     # a case cut short is inconclusive for that case
     except Exception:
         res.count('harness_exceptions')
-        res.note(f'harness exception in {family} {index}: ' + traceback.format_exc()[-400:])
+        res.note(f'harness exception in {family} {index}: ' + traceback.format_exc()[-470:])
         S.pending = []
     finally:
         mon.disarm()
@@ -973,13 +1000,71 @@ def repro_multirhs():
     return bool(outs), 'Matrix.solve (default arnoldi solver, atol=rtol=0) with a multi-column rhs containing a zero column: ' + ('; '.join(outs) if outs else 'solved correctly')
 
 
-def S_orig_solve(A, rhs):
+def S_orig_solve(A, rhs, **kw):
     f = type(A).solve
     f = getattr(f, '__wrapped__', f)
-    return f(A, rhs)
+    return f(A, rhs, **kw)
 
 
-REPRODUCERS = {NAN_FINDING: repro_nan_residual, MULTIRHS_FINDING: lambda: _quiet(repro_multirhs)}
+def repro_multirhs_cons():
+    """NaN-float constraints together with a two-column rhs"""
+    from nutils import matrix
+    outs = []
+    for b in backends():
+        with matrix.backend(b):
+            A = gen.assemble(numpy.array([[2., 1., 0.], [1., 3., 1.], [0., 1., 4.]]))
+            try:
+                x = S_orig_solve(A, numpy.ones((3, 2)), constrain=numpy.array([10., 20., numpy.nan]), solver='direct')
+            except Exception as e:
+                outs.append(f'{b}: raised {type(e).__name__}: {e}')
+                continue
+            if x[:2].tolist() != [[10., 10.], [20., 20.]]:
+                outs.append(f'{b}: constrained rows of the result are {x[:2].tolist()}')
+    return bool(outs), 'Matrix.solve(ones((3,2)), constrain=[10,20,nan]) must return rows [[10,10],[20,20],..]: ' + ('; '.join(outs) if outs else 'ok')
+
+
+def repro_complex_arnoldi():
+    """well-conditioned complex matrix, arnoldi with the diagonal preconditioner, default tolerances"""
+    from nutils import matrix
+    A = numpy.array([[4 + 1j, 1, 0], [1j, 5, 1 - 1j], [0, 2, 6 + 2j]])
+    b = numpy.array([1, 1j, 2 - 1j])
+    outs = []
+    for be in backends():
+        with matrix.backend(be):
+            try:
+                x = S_orig_solve(gen.assemble(A), b, precon='diag')
+            except Exception as e:
+                outs.append(f'{be}: raised {type(e).__name__}')
+                continue
+            r = float(numpy.linalg.norm(A @ x - b))
+            if r > 1e-9:
+                outs.append(f'{be}: returned with residual {r:.2e}')
+    return bool(outs), 'complex 3x3 diagonally dominant matrix .solve(b, precon="diag") [arnoldi, atol=rtol=0]: ' + ('; '.join(outs) if outs else 'converged')
+
+
+def repro_step_time():
+    """System.step with a failing full step: after the bisection the time argument must read t0 + timestep"""
+    from nutils import function, solver
+    u, u0, t, dt = function.Argument('u', (1,)), function.Argument('u0', (1,)), function.Argument('t', ()), function.Argument('dt', ())
+    system = solver.System([(u - u0) / dt + 10 * u ** 3 - (1 + t)], trial='u')
+    step = getattr(solver.System.step, '__wrapped__', solver.System.step)
+    seen = []
+    for maxiter in range(1, 12):
+        try:
+            out = step(system, arguments=dict(u=numpy.array([0.]), t=numpy.array(0.)), suffix='0', timearg='t', timesteparg='dt', timestep=1., maxretry=2, tol=1e-10,
+                       maxiter=maxiter, method=solver.Newton())
+        except solver.SolverError:
+            continue
+        if float(out['dt']) < 1.:   # a bisection took place
+            seen.append((maxiter, float(out['t']), float(out['dt'])))
+    if not seen:
+        return None, 'no time-step bisection was triggered'
+    bad = [s for s in seen if abs(s[1] - 1.) > 1e-9]
+    return bool(bad), 'System.step(t=0, timestep=1, maxretry=2) with Newton maxiter=k forcing a bisection; (k, final t, final dt) = ' + str(bad or seen)
+
+
+REPRODUCERS = {NAN_FINDING: repro_nan_residual, MULTIRHS_FINDING: lambda: _quiet(repro_multirhs), MULTIRHS_CONS_FINDING: lambda: _quiet(repro_multirhs_cons),
+               STEP_FINDING: lambda: _quiet(repro_step_time), COMPLEX_ARNOLDI_FINDING: lambda: _quiet(repro_complex_arnoldi)}
 
 
 MIN_REACH = ['Matrix.solve/checked', 'Matrix._solver/checked', 'Matrix.solve_leniently/checked', 'Matrix.solve/constraint-checks',
@@ -996,6 +1081,7 @@ MIN_REACH = ['Matrix.solve/checked', 'Matrix._solver/checked', 'Matrix.solve_len
 def finalize(m, tier, seed):
     c = m.counters
     planned = sum(NCASES[tier].values())
+    cmon = c.get('monitor_exceptions', 0)
     def sub(prefix):
         return {k[len(prefix):]: v for k, v in sorted(c.items()) if k.startswith(prefix)}
     marg = sum(v for k, v in c.items() if k.endswith('residual-marginal') or k.endswith('independence/marginal'))
@@ -1003,7 +1089,7 @@ def finalize(m, tier, seed):
     cov = dict(evaluations=c.get('evaluations', 0), distinct_nontrivial=len(m.sets.get('distinct', ())), rule=RULE, samples=m.samples[:4],
                backends=sorted(m.sets.get('backends', ())), not_covered=['MKL backend (not installable offline)'],
                cases_per_family=sub('cases/'), cases_skipped_deadline=c.get('cases_skipped_deadline', 0),
-               watchdog_cases=c.get('watchdog_cases', 0), watchdog_per_family=sub('watchdog/'), harness_exceptions=c.get('harness_exceptions', 0),
+               watchdog_cases=c.get('watchdog_cases', 0), watchdog_per_family=sub('watchdog/'), harness_exceptions=c.get('harness_exceptions', 0), monitor_exceptions=c.get('monitor_exceptions', 0),
                monitors={name: sub(name + '/') for name in ['Matrix.solve', 'Matrix._solver', 'Matrix.solve_leniently', 'System.solve', 'System.step',
                                                             'System.solve_constraints', 'legacy.solve_withinfo', 'legacy.solve_linear', 'legacy.optimize',
                                                             'legacy.newton', 'legacy.minimize', 'legacy.pseudotime', 'legacy.thetamethod', 'Topology.project']},
@@ -1023,6 +1109,8 @@ def finalize(m, tier, seed):
         inc = 'scipy backend unavailable'
     elif cov['harness_exceptions']:
         inc = f"{cov['harness_exceptions']} case(s) died in harness code: " + '; '.join(n for n in m.notes if n.startswith('harness'))[:600]
+    elif cmon:
+        inc = f'{cmon} exception(s) inside monitor code: ' + '; '.join(n for n in m.notes if n.startswith('monitor'))[:600]
     elif cov['watchdog_cases'] > max(3, .02 * cov['evaluations']):
         inc = f"wall watchdog fired in {cov['watchdog_cases']} cases"
     elif judged and marg > .005 * judged:
